@@ -737,6 +737,7 @@ class SmtLibParser(object):
         # pylint: disable=unused-argument
         self.consume_opening(tokens, "expression")
         newvals = {}
+        deferred: List[str] = []
         current = "("
         self.consume_opening(tokens, "expression")
         while current != ")":
@@ -746,9 +747,20 @@ class SmtLibParser(object):
             vname = self.parse_atom(tokens, "expression")
             expr = cast(Union[str, FNode], assert_not_none(self.get_expression(tokens)))
             newvals[vname] = expr
-            self.cache.bind(vname, expr)
+            if self.cache.get(vname) is None:
+                # Not standard: the name has no meaning outside the
+                # let, we make it visible to the next bindings
+                self.cache.bind(vname, expr)
+            else:
+                # The bindings of a let are simultaneous: the outer
+                # meaning of the name is the one visible in the other
+                # bindings. We bind it after all of them have been read
+                deferred.append(vname)
             self.consume_closing(tokens, "expression")
             current = tokens.consume()
+
+        for vname in deferred:
+            self.cache.bind(vname, newvals[vname])
 
         stack[-1].append(self._exit_let)
         stack[-1].append(newvals.keys())
